@@ -50,7 +50,8 @@ def gen_cases(tier):
             # three-term models made of high-degree monomials only (ancilla reuse across terms needs three terms)
             for D in gen.polys(N, 3, (1, -2), mindeg=3, minterms=3):
                 for typ in ("PUBO", "PUSO"):
-                    yield {"poly": rp.jdict(D), "type": typ, "scheme": QUICK_SCHEME[typ], "constraint": 0}
+                    for rev in (False, True):
+                        yield {"poly": rp.jdict(D), "type": typ, "scheme": QUICK_SCHEME[typ], "constraint": 0, "rev": rev}
         for D in gen.polys(N, maxterms, COEFS, minterms=1, need_deg=3):
             nt = len(D)
             for typ in TYPES:
@@ -62,13 +63,18 @@ def gen_cases(tier):
                     schemes = (QUICK_SCHEME[typ],)
                 for sch in schemes:
                     for con in ((0,) if typ in ("PUBO", "PUSO") else ((0, 1) if tier == "quick" or nt > 2 else (0, 1, 2))):
-                        yield {"poly": rp.jdict(D), "type": typ, "scheme": sch, "constraint": con}
+                        yield {"poly": rp.jdict(D), "type": typ, "scheme": sch, "constraint": con, "rev": False}
+                        if nt == 2 and con == 0 and (tier != "quick" or sch in ("int", "str")):
+                            # same terms inserted in the opposite order (mapping and reduction order follow insertion order)
+                            yield {"poly": rp.jdict(D), "type": typ, "scheme": sch, "constraint": con, "rev": True}
     return it
 
 
 def build_model(case):
     qv = paths.import_qubovert()
     D = gen.relabel(rp.unjdict(case["poly"]), case["scheme"], N)
+    if case.get("rev"):
+        D = dict(reversed(list(D.items())))
     labels = gen.labels_for(case["scheme"], N)
     M = gen.build(case["type"], D)
     con = case["constraint"]
@@ -226,5 +232,5 @@ def run(ctx):
 
 def replay(case):
     st = Stats()
-    check({k: case[k] for k in ("poly", "type", "scheme", "constraint")}, st)
+    check({k: case.get(k) for k in ("poly", "type", "scheme", "constraint", "rev")}, st)
     return [(s, m) for s, c, m in st.viol]
